@@ -153,6 +153,14 @@ def corpus():
     cs.append({"steps": [["new", "QueryBuilder"], _call(0, "from_", _s("t")), _call(1, "select", _s("a")),
                          _call(2, "rollup", {"k": "field", "n": "a"}), _call(3, "rollup", {"k": "field", "n": "b"}),
                          _call(3, "rollup", {"k": "field", "n": "c"})], "theme": "corpus", "twin": False, "repeats": []})
+    # replace_table on every term class that keeps a list, branching (the receiver and the first result must stay put)
+    for kind in ("Tuple", "Array", "Function", "fn.Sum", "an.Sum", "TupleIn", "Rollup"):
+        cs.append({"steps": [["new", "Table:t1"], ["new", "Table:t2"], ["new", "Table:t3"], ["new", kind],
+                             _call(3, "replace_table", _r(0), _r(2)), _call(3, "replace_table", _r(0), _r(1)),
+                             _call(4, "replace_table", _r(2), _r(1))], "theme": "corpus", "twin": False, "repeats": []})
+    cs.append({"steps": [["new", "Table:t1"], ["new", "Table:t2"], ["new", "Tuple"], ["new", "QueryBuilder"],
+                         _call(3, "from_", _r(0)), _call(4, "select", _r(2)), _call(5, "replace_table", _r(0), _r(1)),
+                         _call(5, "replace_table", _r(0), _r(1))], "theme": "corpus", "twin": False, "repeats": []})
     # immutable=False through EVERY public entry point of every query class: the option must arrive, every chaining call must
     # return the one object, and the chain must end in the statement of the immutable twin
     from harness.c01.world import ENTRY_POINTS, QUERY_CLASSES
